@@ -57,10 +57,10 @@ var strItems = []string{"a", "b", " ", "é", "😀", "\\n", "\\t", "\\\"", "\\\\
 
 func genC08(t *rapid.T) interface{} {
 	c := &C08Case{}
-	bw := rapid.SampledFrom([][2]string{{"true", "false"}, {"yes", "no"}, {"T", "F"}, {"on", "off"}}).Draw(t, "boolwords")
+	bw := rapid.SampledFrom([][2]string{{"true", "false"}, {"yes", "no"}, {"T", "F"}, {"on", "off"}, {"#t", "#f"}, {"ok!", "no!"}}).Draw(t, "boolwords")
 	c.True, c.False = bw[0], bw[1]
-	c.Nil = rapid.SampledFrom([]string{"nil", "null", "none", "n"}).Draw(t, "nilword")
-	c.Word = rapid.SampledFrom([]string{"foo", "let", "_", "a", "z9", "true"}).Draw(t, "word")
+	c.Nil = rapid.SampledFrom([]string{"nil", "null", "none", "n", "()", "~", "nil?", "nil"}).Draw(t, "nilword") // (a word is any text; it ends where no word character follows)
+	c.Word = rapid.SampledFrom([]string{"foo", "let", "_", "a", "z9", "true", "=>", "a-b"}).Draw(t, "word") // (ASCII only: MatchWord refuses other words)
 	item := func() string { return strItems[rapid.IntRange(0, len(strItems)-1).Draw(t, "item")] }
 	n := rapid.IntRange(0, 6).Draw(t, "n")
 	for i := 0; i < n; i++ {
